@@ -195,6 +195,20 @@ pub fn enabled<P: Proto>(w: &ClientWorld<P>, cfg: &Cfg) -> Vec<(CAct, u8)> {
                 if !connected && !w.mon.errors().is_empty() {
                     v.push((CAct::Reconnect { sp: false }, 0));
                 }
+            } else if cfg.variant == 2 {
+                // a tiny transport buffer and a broker that stops reading: the client's writes
+                // block, the transport stays open
+                if connected && healthy {
+                    v.push((CAct::T(q), 0));
+                    if !w.broker_is_stalled() {
+                        v.push((CAct::B(Pk::PingResp), 0));
+                        v.push((CAct::BrokerStall, 0));
+                    }
+                    if sent < 3 {
+                        v.push((CAct::U(UReq::Publish { qos: 0 }), 0));
+                        v.push((CAct::U(UReq::Publish { qos: 1 }), 0));
+                    }
+                }
             } else {
                 // connection phase: CONNACK never / late
                 if !connected && w.mon.errors().is_empty() && w.mon.reconnect_offered_ms().is_none() {
@@ -399,6 +413,12 @@ fn plans(prop: &str, tier: Tier) -> Vec<Plan> {
                     z.keep_alive_s = 0;
                     v.push(Plan { cfg: z, depth_by_devs: vec![if q { 6 } else { 10 }] });
                 }
+                // the broker stops reading while the transport buffer is tiny
+                let mut s = Cfg::base("C18", v5, 10);
+                s.variant = 2;
+                s.keep_alive_s = 5;
+                s.pipe_cap = Some(8);
+                v.push(Plan { cfg: s, depth_by_devs: vec![if q { 19 } else { 24 }] });
                 let mut t = Cfg::base("C18", v5, 10);
                 t.variant = 1;
                 t.keep_alive_s = 5;
